@@ -97,12 +97,16 @@ class RealParser(HTMLParser):
 
     def handle_starttag(self, tag, attrs):
         d = {}
-        ids = []
+        # html.parser lower-cases attribute names; ids are case-sensitive, so they are read from the raw tag text
+        ids = re.findall(r"\sdata-djc-id-(\w+)", self.get_starttag_text())
+        nattr = 0
         for k, v in attrs:
             if k.startswith("data-djc-id-"):
-                ids.append(k[len("data-djc-id-"):])
+                nattr += 1
             else:
                 d[k] = v
+        if nattr != len(ids):
+            self.other_attr_problems.append(f"id attributes of <{tag} data-n={d.get('data-n')}> not readable from the raw tag text")
         if len(ids) != len(set(ids)):
             self.other_attr_problems.append(f"duplicate id attribute on <{tag} data-n={d.get('data-n')}>")
         self.elems.append((d.get("data-n"), frozenset(ids)))
@@ -231,7 +235,7 @@ def worker(w, W, payload):
         agg.expected["elements:%d" % min(nel, 4)] += 1
         if nel:
             agg.nontrivial += 1
-        agg.observe(re.sub(r"a[0-9a-f]{5}", "ID", obs[1]))
+        agg.observe(re.sub(boot.ID_PATTERN, "ID", obs[1]))
         if bad:
             agg.fail(f"{mode}:{bad[0]}:{core_of(prog)}", f"[{mode}] {bad[1]}",
                      {"mode": mode, "program": prog.to_json(mode), "spec": prog_spec(prog)})
@@ -313,12 +317,12 @@ def roots_worker(w, W, payload):
         agg.validated += 1
         agg.nontrivial += 1
         agg.expected["elements:%d" % min(obs[1].count("data-n="), 6)] += 1
-        agg.observe(re.sub(r"a[0-9a-f]{5}", "ID", obs[1]))
+        agg.observe(re.sub(boot.ID_PATTERN, "ID", obs[1]))
         if bad:
             agg.fail(f"{mode}:roots-family:{bad[0]}:{core_of(prog)}", f"[{mode}] {bad[1]}", {"mode": mode, "program": prog.to_json(mode), "spec": prog_spec(prog)})
         else:
             second_pass(prog, mode, h, agg, "roots-family:")
-            base = re.sub(r"a[0-9a-f]{5}", "ID", obs[1])
+            base = re.sub(boot.ID_PATTERN, "ID", obs[1])
             for pos in SIDE_POS:
                 for kind in SIDE_KINDS:
                     boot.ID_SEAM.reset(agg.states * 64 % 0x40000)
@@ -331,7 +335,7 @@ def roots_worker(w, W, payload):
                         bad2 = ("error", f"render failed with {obs2}")
                     else:
                         bad2 = check_one(prog, mode, obs2[1])
-                        if not bad2 and re.sub(r"a[0-9a-f]{5}", "ID", obs2[1]) != base:
+                        if not bad2 and re.sub(boot.ID_PATTERN, "ID", obs2[1]) != base:
                             bad2 = ("side-output", f"output differs from the render without side renders: {obs2[1][:300]!r} vs {obs[1][:300]!r}")
                     agg.validated += 1
                     if bad2:
